@@ -44,7 +44,7 @@ func (check) Cases(tier string) int {
 const typeGroup = 4
 
 func (check) Rule() string {
-	return "one (type, pre-fill, configuration) triple per case. Type: derived from idx/4 (4 consecutive cases share it); 6 in 8 generated with reflect.StructOf (3-8 top-level fields, nesting depth <= 2; kinds bool, int/8/16/32/64, uint/8/16/32/64, float32/64, string, time.Duration, pointers to those, nested structs by value / by pointer / inline (inline, squash), []T and [N]T of primitives, [N]T (N <= 3) of structs (generated ones of primitives, or LibPlain with its unexported, ignored and embedded fields), of map[string]T and of []T, []struct, []*struct, map[string]T, map[string]*struct, map[string]struct; *ucfg.Config fields (pre-filled from a random object or list tree over a 4-key pool, or nil), config tags with and without a name (half of the names lower-case ASCII, the others with leading / inner / only upper-case letters, with _ and -, with lower- and upper-case non-ASCII letters, with letters that have no case; Go field names F<n>, MaxF<n>, F\u00dc<n>, F_x<n>), ignore, merge/replace/append/prepend on lists, maps (1 in 3) and *Config fields and -- 2 in 5 -- merge/replace/append/prepend on struct-typed fields (by value, by pointer, inline; merge twice as often as each other option, because it only shows against an outer policy), validate tags min/max/positive/nonzero on fields that exist before Unpack; the hand-written LibConn, LibLimits, LibPlain (unexported fields, an embedded unexported struct, ignored fields, InitDefaults unconditional / conditional / touching an unexported field, Validate method) and the named primitives LibPort (constant InitDefaults), LibCondPort (conditional), LibNoopInt, LibNoopStr (InitDefaults doing nothing), the named list LibList and the named array LibArr (with a no-op InitDefaults), the named maps LibMap (no-op InitDefaults) and LibDefMap (InitDefaults sets one entry outside the key pool) in 1 of 4 map-of-primitive fields, regexp.Regexp by value and by pointer, inline structs by pointer (nil or pre-filled; half of their struct types start with a struct inlined in turn, by value or by pointer, followed by ordinary fields), and fields no configuration mentions -- an interface type listing InitDefaults (nil, or holding a pointer whose InitDefaults changes nothing), ucfg.Config by value (zero or filled), the next pointer of the self-referential LibRing (nil, a chain, the node itself, a ring of two) -- as ordinary fields by value and by pointer; 1 in 3 of the generated types hold, at random places among 2-5 ordinary fields, 2-4 fields with values of ONE carrier struct type (1-2 primitive fields and, at a random place among them, a pointer to a struct of 1-3 primitives inlined into it): []T, []*T, [2-3]T, map[string]T, map[string]*T, T, *T, and at most one pointer to the same struct of primitives inlined into the enclosing struct itself -- so that one Unpack call meets several nil inline pointers of one struct type (elements of one list, entries of one map, sibling fields, in every declaration order); the self-unpacking LibSelf (Unpack(*Config), rejects lo > hi itself after having stored), LibSelfV (Unpack(*Config), Validate method rejects), LibSelfAny (Unpack(interface{})) likewise; half of the generated types carry a second tag set under the key alt on 4 fields in 5: other name, ignore flag and merge policy drawn independently, the hand-written types carry a few alt tags too), 1 in 8 the hand-written LibTop, 1 in 8 one of the three self-unpacking types as the top-level target, 1 in 64 LibRing (1 in 3 of those with the target itself as its next node). Pre-fill: every field non-zero w.p. 2/3 (nil and empty slices/maps, nil pointers otherwise; validated fields always valid). Configuration: nested map[string]interface{} through NewFrom(PathSep(\".\")), every field path mentioned w.p. 1/2 (1 in 16 of those with an explicit null), numbers as int/int64/uint64/float64/decimal string, durations as string/seconds, ignored and unexported names mentioned w.p. 1/3 with arbitrary data, map settings over a 5-key pool shared with the pre-fill, *Config settings as object / list trees of the shape the field already holds over the key pool of the pre-fill (depth <= 3, primitives, lists of primitives, lists of objects). Every array element is pre-filled on its own and its setting mentions a part of it (a subset of the fields / keys, a list of another length). Success half: Unpack into a deep copy under each of none / AppendValues / PrependValues / ReplaceValues / ReplaceArrValues with the default struct tag; the same type is also unpacked under StructTag(alt) with a configuration drawn from the alt reading of the type (once at a random place among those five calls, the front included, once after them) and then under the default tag again; every result is compared field-path-wise with the model of the tag set in use. A deviation is re-run on a twin type (the same struct tags plus one meaningless key, values converted) to tell dependence on earlier calls from a wrong result. Failure half (under one of the five options and -- 1 in 3 -- under StructTag(alt), drawn per case): for every configurable field position in declaration order (nested, inline and pointee positions included) one fault at a time (up to two different ones per position: unparsable string, overflow, negative into unsigned, bool/object/list into primitive, string into struct/map, primitive into *Config, wrong array length, faulty list element / struct-list element / map value / element of a composite array (the elements before it are merged first), failing validate tag, failing Validate method) is grafted onto the configuration and the struct passed in is compared with its snapshot. Plus per case a top-level []int / []string target and a top-level map[string]int target under the drawn option. Non-trivial = the type has >= 3 configurable leaf fields, the configuration mentions >= 1 and leaves out >= 1 of them; distinct = distinct (type, pre-fill, configuration, drawn option)."
+	return "one (type, pre-fill, configuration) triple per case. Type: derived from idx/4 (4 consecutive cases share it); 6 in 8 generated with reflect.StructOf (3-8 top-level fields, nesting depth <= 2; kinds bool, int/8/16/32/64, uint/8/16/32/64, float32/64, string, time.Duration, pointers to those, nested structs by value / by pointer / inline (inline, squash), []T and [N]T of primitives, [N]T (N <= 3) of structs (generated ones of primitives, or LibPlain with its unexported, ignored and embedded fields), of map[string]T and of []T, []struct, []*struct, map[string]T, map[string]*struct, map[string]struct; *ucfg.Config fields (pre-filled from a random object or list tree over a 4-key pool, or nil), config tags with and without a name (half of the names lower-case ASCII, the others with leading / inner / only upper-case letters, with _ and -, with lower- and upper-case non-ASCII letters, with letters that have no case; Go field names F<n>, MaxF<n>, F\u00dc<n>, F_x<n> and -- 1 in 5, at every nesting level, with and without a name in the tag -- names whose FIRST letter is a capital outside ASCII: Latin-1 \u00c4 \u00dc \u00d6 \u00d1 \u00c9, \u0141, Greek \u03a9 \u0394, Cyrillic \u0416 \u042f), ignore, merge/replace/append/prepend on lists, maps (1 in 3) and *Config fields and -- 2 in 5 -- merge/replace/append/prepend on struct-typed fields (by value, by pointer, inline; merge twice as often as each other option, because it only shows against an outer policy), validate tags min/max/positive/nonzero on fields that exist before Unpack; the hand-written LibConn, LibLimits, LibPlain (unexported fields, an embedded unexported struct, ignored fields, InitDefaults unconditional / conditional / touching an unexported field, Validate method) and the named primitives LibPort (constant InitDefaults), LibCondPort (conditional), LibNoopInt, LibNoopStr (InitDefaults doing nothing), the named list LibList and the named array LibArr (with a no-op InitDefaults), the named maps LibMap (no-op InitDefaults) and LibDefMap (InitDefaults sets one entry outside the key pool) in 1 of 4 map-of-primitive fields, regexp.Regexp by value and by pointer, inline structs by pointer (nil or pre-filled; half of their struct types start with a struct inlined in turn, by value or by pointer, followed by ordinary fields), and fields no configuration mentions -- an interface type listing InitDefaults (nil, or holding a pointer whose InitDefaults changes nothing), ucfg.Config by value (zero or filled), the next pointer of the self-referential LibRing (nil, a chain, the node itself, a ring of two) -- as ordinary fields by value and by pointer; 1 in 3 of the generated types hold, at random places among 2-5 ordinary fields, 2-4 fields with values of ONE carrier struct type (1-2 primitive fields and, at a random place among them, a pointer to a struct of 1-3 primitives inlined into it): []T, []*T, [2-3]T, map[string]T, map[string]*T, T, *T, and at most one pointer to the same struct of primitives inlined into the enclosing struct itself -- so that one Unpack call meets several nil inline pointers of one struct type (elements of one list, entries of one map, sibling fields, in every declaration order); the self-unpacking LibSelf (Unpack(*Config), rejects lo > hi itself after having stored), LibSelfV (Unpack(*Config), Validate method rejects), LibSelfAny (Unpack(interface{})) likewise; half of the generated types carry a second tag set under the key alt on 4 fields in 5: other name, ignore flag and merge policy drawn independently, the hand-written types carry a few alt tags too), 1 in 8 the hand-written LibTop, 1 in 8 one of the three self-unpacking types as the top-level target, 1 in 64 LibRing (1 in 3 of those with the target itself as its next node). Pre-fill: every field non-zero w.p. 2/3 (nil and empty slices/maps, nil pointers otherwise; validated fields always valid). Configuration: nested map[string]interface{} through NewFrom(PathSep(\".\")), every field path mentioned w.p. 1/2 (1 in 16 of those with an explicit null), numbers as int/int64/uint64/float64/decimal string, durations as string/seconds, ignored and unexported names mentioned w.p. 1/3 with arbitrary data, map settings over a 5-key pool shared with the pre-fill, *Config settings as object / list trees of the shape the field already holds over the key pool of the pre-fill (depth <= 3, primitives, lists of primitives, lists of objects). Every array element is pre-filled on its own and its setting mentions a part of it (a subset of the fields / keys, a list of another length). Success half: Unpack into a deep copy under each of none / AppendValues / PrependValues / ReplaceValues / ReplaceArrValues with the default struct tag; the same type is also unpacked under StructTag(alt) with a configuration drawn from the alt reading of the type (once at a random place among those five calls, the front included, once after them) and then under the default tag again; every result is compared field-path-wise with the model of the tag set in use. A deviation is re-run on a twin type (the same struct tags plus one meaningless key, values converted) to tell dependence on earlier calls from a wrong result. Failure half (under one of the five options and -- 1 in 3 -- under StructTag(alt), drawn per case): for every configurable field position in declaration order (nested, inline and pointee positions included) one fault at a time (up to two different ones per position: unparsable string, overflow, negative into unsigned, bool/object/list into primitive, string into struct/map, primitive into *Config, wrong array length, faulty list element / struct-list element / map value / element of a composite array (the elements before it are merged first), failing validate tag, failing Validate method) is grafted onto the configuration and the struct passed in is compared with its snapshot. Plus per case a top-level []int / []string target and a top-level map[string]int target under the drawn option. Non-trivial = the type has >= 3 configurable leaf fields, the configuration mentions >= 1 and leaves out >= 1 of them; distinct = distinct (type, pre-fill, configuration, drawn option)."
 }
 
 func (check) Assumptions() []string {
@@ -57,7 +57,7 @@ func (check) Assumptions() []string {
 		"maps follow the active policy like lists do ('merging lists and maps according to the active policy'; ReplaceValues: 'all merging and unpacking operations ... replace old dictionaries and arrays'): under replace -- global, tag or inherited -- a mentioned map holds the new entries alone, under every other policy (arr-replace included: it concerns lists) the entries are merged key by key; struct-typed fields are not dictionaries in this sense, their unmentioned fields always stay",
 		"an inlined struct behind a nil pointer is treated like any other nil pointer field: allocated when the configuration has a non-null setting for one of its fields (those of structs inlined into it included), left nil otherwise; settings for ignored or unexported names do not count; a pre-filled inlined pointee is visited like a struct held by value whether anything of it is mentioned or not (InitDefaults of what it holds by value runs: 'as InitDefaults set it')",
 		"which ill-typed settings Unpack must reject is not this property's business (a list for a struct field, an object for a list field are silently skipped on this tree): injected faults that are not raised are only counted; a dotted tag name over an unresolvable reference (VarExp) is not generated",
-		"an explicit null is 'no setting'; an empty object or empty list is never generated; null elements inside lists and null entries of maps are never generated (see the next but one entry)",
+		"an explicit null is 'no setting'; the empty list `key: []` is a setting (1 in 6 of the list settings of slice fields, slice elements of arrays and the top-level slice): under a replacing policy -- tag, inherited tag, ReplaceValues, ReplaceArrValues -- the field holds the empty list afterwards (nil or empty not compared), under append / prepend / index-wise merge the list as it was; the empty object `key: {}` for a map field (1 in 8) leaves the entries alone under every policy but replace, where both 'the map holds the new (no) entries' and 'an empty dictionary replaces nothing' (the merge statement C01) can be read into the statement: not compared, counted; an empty object for a struct field, an empty list for a fixed-size array and empty containers inside *Config trees are not generated; null elements inside lists and null entries of maps are never generated (see the next but one entry)",
 		"expected values of primitives come from the generator (value and its configuration spelling are drawn together); conversions proper are C03's business: only exact ones are used (floats are multiples of 1/4 or float64 literals into float64, durations whole or quarter seconds)",
 		"a list whose active policy replaces consists of the new values alone: an element of a replaced list of structs is the zero value with the settings of its position applied, nothing of the old element at that position survives (doc comment: 'replaced by the new values')",
 		"a null at a list position is never generated and what it does to a pre-filled slot is not compared: the statement does not pin it down. For a struct field a null is 'no setting' (the field is left alone), but the positions of a list can not be absent, and C01's merge statement lets a null in the merged-in list win over a primitive; so both 'slot untouched' ([nil,5] onto [1,2,3] = [1,5,3]) and 'slot takes the value a fresh unpack of the merged configuration gives' ([0,5,3], what this tree does) can be read into it; the same goes for a null entry of a map (m: {a: null} onto map[a:1] gives a:0 on this tree, a null struct field leaves the field alone)",
@@ -850,6 +850,10 @@ func (rn *runner) monitors(st *stype, where string) {
 			res.SetAdd("tag_option", "ignore")
 		}
 		res.SetAdd("field_shape", f.shape())
+		if gs := goNameStyle(f.goName); gs != "ascii" {
+			res.Ev("fields_whose_go_name_starts_with_non_ascii_capital", 1)
+			res.SetAdd("go_name_first_letter", gs+"@"+where)
+		}
 		if f.inline {
 			res.SetAdd("tag_option", "inline")
 		}
@@ -986,9 +990,24 @@ func (rn *runner) listMonitors(st *stype, c *cval, pre reflect.Value, pc polCtx)
 				rn.res.Ev("settings_under_names_with_upper_case_per_unpack", 1)
 			}
 		}
+		if gs := goNameStyle(f.goName); gs != "ascii" && (cv.form != "fields" || cv.real > 0) {
+			tagged := "without-name-in-tag"
+			if f.name != strings.ToLower(f.goName) {
+				tagged = "with-name-in-tag"
+			}
+			rn.res.Ev("settings_for_fields_whose_go_name_starts_with_non_ascii_capital_per_unpack", 1)
+			rn.res.SetAdd("mentioned_go_name_first_letter", gs+":"+tagged+":"+f.shape())
+		}
 		fpc := f.policy(pc)
 		switch f.kind {
 		case kMapPrim, kMapPtrStruct, kMapStruct:
+			if len(cv.keys) == 0 && cv.form == "keys" {
+				rn.res.Ev("empty_object_settings_for_maps_per_unpack", 1)
+				rn.res.SetAdd("empty_object_setting", fpc.src+":"+fpc.pol+":"+filled)
+				if fpc.pol == "replace" && fpre.IsValid() && fpre.Len() > 0 {
+					rn.res.Ev("empty_object_settings_onto_filled_maps_under_replace_per_unpack", 1)
+				}
+			}
 			rn.res.SetAdd("map_policy", fpc.src+":"+fpc.pol+":"+f.shape()+":"+filled)
 			if fpc.pol == "replace" && filled == "filled" {
 				rn.res.Ev("maps_replaced_onto_filled_per_unpack", 1)
@@ -1008,6 +1027,13 @@ func (rn *runner) listMonitors(st *stype, c *cval, pre reflect.Value, pc polCtx)
 				state = "onto-empty"
 			}
 			rn.res.SetAdd("list_policy", fpc.src+":"+fpc.pol+":"+f.shape()+":"+state)
+			if len(cv.list) == 0 && cv.form == "list" {
+				rn.res.Ev("empty_list_settings_per_unpack", 1)
+				rn.res.SetAdd("empty_list_setting", fpc.src+":"+fpc.pol+":"+state)
+				if replaces(fpc) && state == "onto-filled" {
+					rn.res.Ev("empty_list_settings_onto_filled_lists_under_replace_per_unpack", 1)
+				}
+			}
 			if f.kind == kSliceStruct && replaces(fpc) && state == "onto-filled" {
 				rn.res.Ev("struct_lists_replaced_onto_filled", 1)
 			}
@@ -1185,7 +1211,11 @@ func topLevelSlice(res *harness.R, r *rand.Rand, gopt globalOpt, verbose bool) {
 	pre := reflect.New(f.typ).Elem()
 	g.fillField(f, pre)
 	cv := &cval{form: "list"}
-	for i, n := 0, 1+r.Intn(3); i < n; i++ {
+	n := 1 + r.Intn(3)
+	if r.Intn(6) == 0 {
+		n = 0 // the empty list
+	}
+	for i := 0; i < n; i++ {
 		cv.list = append(cv.list, g.setting(et, hint{}))
 	}
 	run := func(c *cval) (reflect.Value, error, bool) {
@@ -1217,11 +1247,22 @@ func topLevelSlice(res *harness.R, r *rand.Rand, gopt globalOpt, verbose bool) {
 			state = "onto-empty"
 		}
 		res.SetAdd("list_policy", "global-toplevel:"+gopt.pc.pol+":"+state)
+		if len(cv.list) == 0 {
+			res.Ev("empty_list_settings_per_unpack", 1)
+			res.SetAdd("empty_list_setting", "global-toplevel:"+gopt.pc.pol+":"+state)
+		}
 		switch {
 		case err != nil:
 			res.Violate("valid-config-rejected:toplevel-slice", "%s returned %q", ctx(cv), err)
 		case !equal(exp, target.Elem(), false):
-			res.Violate(listSig(gopt.pc, "toplevel-slice", equal(def, target.Elem(), false)), "%s gave %s want %s (index-wise merge would give %s)", ctx(cv), render(target.Elem()), render(exp), render(def))
+			sig := listSig(gopt.pc, "toplevel-slice", equal(def, target.Elem(), false))
+			if len(cv.list) == 0 {
+				sig = "empty-list-setting-changes-list:global-toplevel-slice:" + gopt.pc.pol
+				if replaces(gopt.pc) && pre.Len() > 0 && equal(pre, target.Elem(), false) {
+					sig = "empty-list-setting-does-not-replace-old-elements:global-toplevel-slice:" + gopt.pc.pol
+				}
+			}
+			res.Violate(sig, "%s gave %s want %s (index-wise merge would give %s)", ctx(cv), render(target.Elem()), render(exp), render(def))
 		}
 		if verbose {
 			fmt.Printf("%s -> %s (model %s) err=%v\n", ctx(cv), render(target.Elem()), render(exp), err)
@@ -1281,7 +1322,10 @@ func topLevelMap(res *harness.R, r *rand.Rand, gopt globalOpt) {
 			res.Violate("mentioned-field-wrong:toplevel-map", "%s: entry %q is %s; map now %s", ctx, k, render(e.want), render(got))
 		}
 	}
-	if gopt.pc.pol == "replace" {
+	if gopt.pc.pol == "replace" && len(cv.keys) == 0 && got.Len() > 0 {
+		// the empty object under replace may also leave the map alone (not pinned)
+		res.Ev("empty_object_under_replace_left_the_old_entries(not pinned)", 1)
+	} else if gopt.pc.pol == "replace" {
 		// old dictionaries are replaced: the map holds the new entries alone
 		for _, k := range got.MapKeys() {
 			if _, mentioned := cv.keys[k.String()]; !mentioned {
